@@ -448,6 +448,13 @@ def rule_porcelain(ctx, ix):
 
             return function
 
+        def enum_call(value):
+            # Enum(value): a member is returned as it is, a member's value gives the member, anything else is a ValueError
+            for member, text in ((LLVM, "llvm"), (CFFI, "cffi")):
+                if value is member or value == text:
+                    return member
+            raise S.Raised("ValueError")
+
         G = {
             "parse_assignment": parse_assignment,
             "parse_format": parse_format,
@@ -455,7 +462,7 @@ def rule_porcelain(ctx, ix):
             "raise_exception": S.Obj("raise_exception"),
             **{n: node for n, node in fns.items() if n != cached_name},
             cached_name: cachable,
-            "BackendCompiler": S.Obj("BackendCompiler", llvm=LLVM, cffi=CFFI),
+            "BackendCompiler": S.CallableObj("BackendCompiler", enum_call, llvm=LLVM, cffi=CFFI),
             "TensorMethod": lambda problem, backend=LLVM: S.Obj("TensorMethod", problem=problem, backend=backend),
         }
         return parsed, G, calls
